@@ -533,6 +533,24 @@ def run(ctx):
         for cid in ids[:2] + ids[-1:]:
             samples.append(dict(case=cases[cid], impl=impl.get(cid)))
 
+    # the hypothesis ts > 0 on the production propose path (live single-process server, redis protocol)
+    live = None
+    if not ctx.replay:
+        for attempt in range(2):
+            port = 27100 + ((os.getpid() + attempt * 7) % 300) * 3
+            rc, out, _ = sh("%s -live %d" % (os.path.join(vlib.BIN, "ttlsim"), port), cwd=ctx.run_dir, timeout=120)
+            lines = [l for l in out.split("\n") if l.startswith("LIVE\t")]
+            live = lines[-1].split("\t", 1)[1] if lines else "inconclusive: no result (rc %d)" % rc
+            if not live.startswith("inconclusive"):
+                break
+        hist_all["live-server timestamp check: " + live.split(":")[0].split(" ")[0]] = 1
+        if live.startswith("inconclusive"):
+            ctx.notes.append("live-server timestamp check inconclusive twice: " + live)
+        elif not live.startswith("ok"):
+            all_fail.append(dict(name="ts-positive", what="a write applied through the production propose path carried a timestamp "
+                                 "that is zero / outside the wall-clock window of the run (the ts = 0 escape of isExpired): " + live,
+                                 case=dict(seq="live", abstract_tsv=[], live=live)))
+
     def search():
         d2, err = run_impl(ctx, "search", "-seed %d -n 2500 -len 40 -engines mem,pebble" % (ctx.seed + 1000003), model=False)
         if d2 is None:
@@ -572,7 +590,7 @@ def run(ctx):
         samples=samples[:6],
     ), assumptions=[
         "log timestamps and expiry instants are kept >= 20 days away from the wall clock (and from wall clock - 48 h), so no comparison depends on sub-day clock values",
-        "the ts = 0 escape of isExpired is outside the property (hypothesis ts > 0); writes with ts = 0 are generated (2 %) and diffed against the model, but not judged by the direct oracle",
+        "the ts = 0 escape of isExpired is outside the property (hypothesis ts > 0); writes with ts = 0 are generated (2 %) and diffed against the model, but not judged by the direct oracle; that real entries carry ts > 0 is checked on every run on a live single-process server driven through the redis protocol (timestamps read back from the engine must lie inside the wall-clock window of the run)",
         "integer scores only; the second (score) index of sorted sets is not represented in the model",
         "compaction on mem / pebble is simulated: the production rockCompactFilter.Filter decides per raw key, the harness deletes a seeded subset of the allowed keys (these engines never call the filter); real compaction runs on rocksdb in the thorough tier",
     ])
